@@ -230,8 +230,11 @@ def _predict(ex, o, post, model, fields, objects, none_v, fn_names):
             elif fty.cls == 'dict':
                 n = model.eval(ph.dlen(vv.t), model_completion=True)
                 out['fields'][f] = {'dict_len': n.as_long() if z3.is_int_value(n) else None}
+            elif fty.cls in (None, 'str'):
+                continue                       # strings / untyped references: not compared
             else:
-                out['fields'][f] = {'object': keys.get(str(v))}      # key of an entry object, None = some other object
+                k2 = f'{v}:{fty.cls}'
+                out['fields'][f] = {'object': k2 if k2 in objects else None}   # key of an entry object, None = some other
     # external calls the function makes itself, in order (ghost trace of this activation)
     n0 = model.eval(z3.Int('h:$trlen'), model_completion=True)
     n1 = ph.maps.get('$trlen')
